@@ -835,7 +835,8 @@ def cstr(s):
 
 
 def units(s):
-    fr = Fraction(s) * UNIT
+    """Exact value of the double float(s) in units of 2^-64 (None for doubles finer than that: 0 < |x| < 2^-11)."""
+    fr = Fraction(float(s)) * (1 << 64)
     return int(fr) if fr.denominator == 1 else None
 
 
@@ -857,11 +858,13 @@ def coq_rule(r):
     am = []
     for c in r['ac']:
         op = {'>': 'AGt', '>=': 'AGe', '<': 'ALt', '<=': 'ALe', '=': 'AEq', ':': 'ARange'}[c['op']]
-        v = units(c['lo'] if c['op'] == ':' else c['v'])
-        hi = units(c['hi']) if c['op'] == ':' else 0
-        if v is None or hi is None or 'e' in (c['v'] or '') or 'e' in (c['lo'] or ''):
-            raise Skip('amount-not-representable')
-        am.append(f'A {op} {z(v)} {z(hi)}')
+        vt = c['lo'] if c['op'] == ':' else c['v']
+        ht = c['hi'] if c['op'] == ':' else ''
+        v = units(vt)
+        hi = units(ht) if c['op'] == ':' else 0
+        if v is None or hi is None:
+            raise Skip('amount-finer-than-model-unit')
+        am.append(f'A {op} {z(v)} {z(hi)} {coq_str(vt)} {coq_str(ht)}')
     dt = []
     for c in r['dc']:
         if c['op'] == '=':
@@ -897,14 +900,14 @@ def coq_atoms(a):
         if x[0] == 're':
             out.append(f'ERegex {coq_str(x[1])}')
         elif x[0] == 'amt':
-            u = units(x[2]) if 'e' not in x[2] else None
+            u = units(x[2])
             if u is None:
-                raise Skip('amount-not-representable')
+                raise Skip('amount-finer-than-model-unit')
             out.append(f'EAmt {ops[x[1]]} {z(u)}')
         elif x[0] == 'near':
-            u = units(x[1]) if 'e' not in x[1] else None
+            u = units(x[1])
             if u is None:
-                raise Skip('amount-not-representable')
+                raise Skip('amount-finer-than-model-unit')
             out.append(f'EAmtNear {z(u)}')
         elif x[0] == 'date':
             out.append(f'EDate {ops[x[1]]} {x[2]}')
@@ -940,20 +943,9 @@ def coq_subcase(sub, txns, today, tabs_src, stats, with_text=True):
             continue
         a = units(t['a'])
         if a is None:
-            stats['txn_skipped_amount_not_in_model_unit'] = stats.get('txn_skipped_amount_not_in_model_unit', 0) + 1
+            stats['txn_skipped_amount_finer_than_model_unit'] = stats.get('txn_skipped_amount_finer_than_model_unit', 0) + 1
             continue
         leg, mig = sub['legacy'][i], (sub.get('migrated') or [None] * len(txns))[i]
-        # float tolerance: keep the transaction only if abs(a-v) < 0.01 is decided the same exactly and in floats
-        inexact = False
-        for r in sub['loaded']:
-            for c in r['ac']:
-                if c['op'] == '=':
-                    fr = abs(Fraction(t['a']) - Fraction(c['v']))
-                    if (fr < Fraction(1, 100)) != (abs(float(t['a']) - float(c['v'])) < 0.01):
-                        inexact = True
-        if inexact:
-            stats['discarded_inexact'] = stats.get('discarded_inexact', 0) + 1
-            continue
         lx = []
         bad = False
         for p, row in tabs_src['lx']:
@@ -1121,6 +1113,71 @@ def lit_check(seed, tier):
     return bad, len(strings), ''
 
 
+# ---- line reader correspondence --------------------------------------------------------------------------
+PROBE_HEADER = r'''From Coq Require Import String Ascii List Bool ZArith NArith.
+From Tally Require Import Lib.Str C14.Model.
+Import ListNotations.
+Open Scope string_scope.
+Definition sbytes (l : list N) : string := fold_right (fun n s => String (Ascii.ascii_of_N n) s) EmptyString l.
+Definition set_eqb (a b : list string) : bool := (forallb (fun x => mem x b) a && forallb (fun x => mem x a) b)%bool.
+(* a complete block [Probe] / match: true / category: Z0 / subcategory: Z1 / tags: z2 followed by ONE more line:
+   None = not modelled (match/let/field/priority), Some None = the file is rejected,
+   Some (Some (name, merchant, category, subcategory, tags)) = the single rule that results *)
+Definition expect (line : string) : option (option (string * string * string * string * list string)) :=
+  match classify_line true line with
+  | KBlank | KComment => Some (Some ("Probe", "Probe", "Z0", "Z1", ["z2"]))
+  | KHeader _ | KEmptyHeader | KGarbage | KTopLevel => Some None
+  | KProp k v =>
+    if String.eqb k "category" then Some (Some ("Probe", "Probe", v, "Z1", ["z2"]))
+    else if String.eqb k "subcategory" then Some (Some ("Probe", "Probe", "Z0", v, ["z2"]))
+    else if String.eqb k "tags" then Some (Some ("Probe", "Probe", "Z0", "Z1", split_tags v))
+    else if String.eqb k "merchant" then Some (Some ("Probe", (if nonempty v then v else "Probe"), "Z0", "Z1", ["z2"]))
+    else if (String.eqb k "match" || String.eqb k "let" || String.eqb k "field" || String.eqb k "priority")%bool then None
+    else Some None
+  end.
+Definition ok (c : string * option (string * string * string * string * list string)) : bool :=
+  let '(line, obs) := c in
+  match expect line, obs with
+  | None, _ => true
+  | Some None, None => true
+  | Some (Some (n, m, ca, su, tg)), Some (n', m', ca', su', tg') =>
+    (String.eqb n n' && String.eqb m m' && String.eqb ca ca' && String.eqb su su' && set_eqb tg tg')%bool
+  | _, _ => false
+  end.
+Fixpoint failing (i : nat) (l : list (string * option (string * string * string * string * list string))) : list nat :=
+  match l with [] => [] | c :: r => if ok c then failing (S i) r else i :: failing (S i) r end.
+'''
+
+
+def probe_lines():
+    vals = SYNTAX_VALUES + ['', ' ', 'plain', 'a,b', 'f(x, y), z', ' padded ', 'x ]', '[ y']
+    out = ['', '   ', '# comment', '  # indented', 'category:', 'tags:', 'tags: ,', 'subcategory :x', 'CATEGORY: Up', ' Tags : A , b ']
+    for v in vals:
+        out += [f'category: {v}', f'subcategory:{v}', f'  tags :  {v}, x', f'[{v}]', v, f'Category: {v}', f'merchant: {v}',
+                f'unknown: {v}', f'[ {v} ]  ']
+    return [l for l in dict.fromkeys(out) if not any(ch in l for ch in '\n\r\x00')]
+
+
+def probe_check():
+    lines = probe_lines()
+    obs = run_impl(IMPL, {'workdir': WORK, 'probe': lines})['probe']
+    rows = []
+    for l, o in zip(lines, obs):
+        if o is None or len(o) != 1:
+            term = 'None'
+        else:
+            n, m, c, sc, tg = o[0]
+            term = f'Some ({cstr(n)}, {cstr(m)}, {cstr(c)}, {cstr(sc)}, [{"; ".join(cstr(t) for t in tg)}])'
+        rows.append(f'({cstr(l)}, {term})')
+    body = 'Definition cases := [\n' + ';\n'.join(rows) + '\n].\nEval vm_compute in failing 0 cases.\n'
+    rc, out, errt = run_cases('C14_probe', PROBE_HEADER, body, timeout=600)
+    m = re.search(r'=\s*\[(.*?)\]\s*:\s*list nat', out, re.S)
+    if rc != 0 or not m:
+        return None, len(lines), (out + errt)[-800:]
+    bad = [lines[int(x)] for x in m.group(1).replace('%nat', '').replace('\n', ' ').split(';') if x.strip()]
+    return bad, len(lines), ''
+
+
 # ------------------------------------------------------------------------------------------ witnesses of the refutations
 WITNESSES = [
     # (expected signature or None = must migrate faithfully, csv rule line, transaction)
@@ -1164,10 +1221,11 @@ def main(tier):
         'converter omits regex())',
         'ORACLE legacy_expr : the legacy path evaluating a CSV pattern as an expression (_is_expression_pattern); a Section '
         'variable, irrelevant under safe_rule',
-        'money is exact (Z, unit 1/6400); abs(amount - v) < 0.01 (now evaluated by BOTH paths with the same float expression) is '
-        'compared exactly in the model: transactions on which the float evaluation differs from the exact one (e.g. 10.01 vs '
-        '[amount=10.00]: 0.00999..98 < 0.01) are excluded from the model comparison, counted, and still run through the '
-        'implementation-only oracle',
+        'money in the model is the EXACT value of the IEEE double (Z, unit 2^-64): comparisons are those of the doubles, and the '
+        'float test abs(amount - v) < 0.01 is decided exactly (|a - v| <= NEAR_MID, by monotonicity of round-to-nearest-even and '
+        'the odd significand of the double 0.01); every generated amount is compared inside Coq (only doubles with 0 < |x| < 2^-11 '
+        'are finer than the unit; none is generated). float.__repr__ and the reading of a float literal are CPython library: the '
+        'number text is carried through the model (a_txt) and only its placement is modelled',
         'the model describes the tree after the adopted fixes (escaped pattern literal, abs() tolerance, stripped loader cells, skipped '
         'no-op rows); signatures recorded as fixed are not suppressed: a regression is a VIOLATION under its old signature',
         'transactions always carry an amount and a date (as tally builds them); dates are proleptic Gregorian ordinals',
@@ -1304,6 +1362,15 @@ def main(tier):
                       signature=sig)
         reported.append({'signature': sig, 'n_failing_pairs': len(lst), 'status': 'VIOLATION'})
 
+    probe_n = 0
+    if res['ok']:
+        pb, probe_n, errt = probe_check()
+        if pb is None:
+            broken.append({'kind': 'broken-correspondence', 'obligation': 'classify_line vs MerchantEngine.parse (one line appended to a block)',
+                           'detail': 'cases.v did not evaluate: ' + errt})
+        elif pb:
+            broken.append({'kind': 'broken-correspondence', 'obligation': 'classify_line vs MerchantEngine.parse (one line appended to a block)',
+                           'detail': {'lines': pb[:10], 'n': len(pb)}})
     unknown = [x for x in reported if x['status'] == 'VIOLATION']
     if broken and not unknown:
         run.violation('broken', {'kind': broken[0]['kind'], 'obligation': broken[0].get('obligation') or
@@ -1311,7 +1378,7 @@ def main(tier):
                                  'broken': broken, 'searched': f'{n_pairs} (file, transaction) pairs; no failing input outside the known signatures'},
                       found_input=False)
     run.cov.update({
-        'evaluations': n_pairs + stats.get('model_txn_evals', 0) + lit_n,
+        'evaluations': n_pairs + stats.get('model_txn_evals', 0) + lit_n + probe_n,
         'distinct_nontrivial': len(nontrivial),
         'rule': 'CSV rule files of 1-6 rules (37 realistic patterns: regexes with classes, anchors, alternation, look-aheads, groups, '
                 'quantifiers, and plain literals, each in upper/lower/title/mixed letter case; every modifier form amount > >= < <= = range, date = range relative, month, in combinations, with '
@@ -1325,7 +1392,7 @@ def main(tier):
         'files': len(cases), 'file_txn_pairs_on_implementation': n_pairs, 'failing_pairs': n_fail_pairs,
         'signatures': reported, 'rules_per_file_histogram': hist_rules, 'modifiers_per_rule_histogram': hist_mods,
         'model_vs_impl_sub_cases_in_coq': len(where), 'model_vs_impl_txn_evaluations_in_coq': stats.get('model_txn_evals', 0),
-        'model_disagreements': len(model_bad), 'literal_strings_vs_cpython': lit_n, 'literal_disagreements': len(lit_bad),
+        'model_disagreements': len(model_bad), 'line_reader_probes_vs_parser': probe_n, 'literal_strings_vs_cpython': lit_n, 'literal_disagreements': len(lit_bad),
         're_case_law_checked': law_checked, 're_case_law_failed': law_failed,
         'discards': {k: v for k, v in stats.items() if k not in ('model_txn_evals', 'rules_inside_guard', 'rules_in_coq_files')},
         'discarded_files': discards, 'failing_pairs_in_unaligned_files': UNALIGNED[0],
